@@ -104,6 +104,7 @@ PROPS["C02"] = dict(
 PROPS["C04"] = dict(
     prefix="c04_",
     overlays=[("lib.rs", "vk_c04.rs"), ("parse", "vk_c04p.rs"), ("parse", "vk_c10.rs")],
+    per_harness={r"c04_q_read_all_any_count": dict(mem_gb=10, timeout=900)},
     extra_harnesses=dict(quick=["c10_q_attach_step_any_context"], thorough=[]),
     bounds="chunk payloads <= 58 bytes with every attribute byte symbolic (string-length bytes concrete 0/1), <= 5 layers "
            "with arbitrary u16 nesting levels, cel tables of <= 2 frames x 2 layers with symbolic link targets",
@@ -232,15 +233,22 @@ PROPS["C13"] = dict(
 PROPS["C14"] = dict(
     prefix="c14_",
     overlays=[("reader", "vk_c14.rs"), ("parse", "vk_c13.rs")],
-    per_harness={r"c14_q_io_error_.*": dict(mem_gb=14, timeout=1200)},
-    bounds="delivery schedule one byte per call with symbolic contents (every primitive; take_bytes and a whole frame in the thorough "
-           "tier); one hard I/O error (concrete kind) on the first read of a primitive; the io::Error -> IoError conversion and source() "
-           "for two kinds",
-    outside="Interrupted results (every query in which read_exact's retry loop drops an io::Error runs out of memory under CBMC); "
-            "I/O errors injected at arbitrary offsets / of arbitrary kinds inside a frame or file (std::io::Error's tagged-pointer "
-            "representation makes every query that creates more than one error value run out of memory under CBMC); "
-            "arbitrary (symbolic) split sizes -- std's read_exact loop treats every short count alike (argument, not verdict); "
-            "read_file / BufReader / real files (OS I/O is not encodable)",
+    per_harness={r"c14_q_io_error_conversion_.*": dict(mem_gb=8, timeout=900, cut=[r"<core::io::CustomOwner as std::ops::Drop>::drop"], input_free=True),
+                 r"c14_._hard_error_.*": dict(mem_gb=8, timeout=900, cut=[r"<core::io::CustomOwner as std::ops::Drop>::drop"])},
+    bounds="symbolic contents throughout. Delivery: one byte per call (every primitive; take_bytes in the thorough tier). Transient "
+           "Interrupted results at fixed call numbers (masks per harness: before, between and after partial deliveries of 1, 2 or 4 "
+           "bytes) for every primitive, and for a whole frame (layer + user data chunk) delivered 4 (quick) / 5 (thorough) bytes "
+           "per call with every 3rd / 2nd call interrupted, compared field by field with the in-memory parse. Hard I/O errors: one "
+           "concrete kind at one concrete offset inside the bytes requested by each primitive and inside a chunk payload "
+           "(Chunk::read) -> IoError carrying that kind; the io::Error -> IoError conversion and source() for two kinds",
+    outside="std's read_exact is modelled for the harness readers (RetryReader/LimitReader::read_exact: retry on Interrupted, "
+            "UnexpectedEof at end of input, the reader's error otherwise) without materialising the transient error value -- "
+            "decoding std::io::Error's tagged pointer is a symbolic branch for CBMC and its Custom drop glue calls through an "
+            "OS function table; the drop of the Custom variant is cut with a checked assert(false) (driver option `cut`), which "
+            "the solver shows unreachable. NOT decided: Interrupted during read_to_end (take_bytes, unzip: std's Take and the "
+            "inflater own that loop); hard errors at symbolic offsets / of symbolic kinds, or inside the frame and chunk headers of "
+            "parse_frame (Result<_, io::Error> is a nullable tagged pointer: CBMC follows the Ok continuation with unconstrained "
+            "lengths and runs out of memory); arbitrary (symbolic) split sizes; read_file / BufReader / real files (OS I/O)",
 )
 
 
